@@ -13,7 +13,7 @@
 (* builder (dictionaries are not migrated), reverts the totals and         *)
 (* re-appends the same batch.                                              *)
 (***************************************************************************)
-EXTENDS Integers, Sequences, FiniteSets, TLC
+EXTENDS DictFn
 
 CONSTANTS
   Cols,        \* dictionary columns of the record
@@ -65,22 +65,8 @@ NewBatch ==
 \* cardinality the builder reports for column c once the batch is appended
 CardAfter(c) == IF fresh THEN d[c] ELSE memo[c] + (d[c] - ovl[c])
 
-\* updateIndexType for one column, as a function: <<new lvl, new cum, new resetPending, kind>>
-\* kind in "ok", "upgrade", "reset", "overflow"
-Update(c) ==
-  LET card == CardAfter(c)
-      total == cum[c] + n[c]                         \* after AddTotal
-      RECURSIVE Climb(_)
-      Climb(i) == IF i <= L /\ card > Caps[i] THEN Climb(i + 1) ELSE i
-      idx == Climb(lvl[c])
-  IN IF lvl[c] = 0 THEN <<0, cum[c], FALSE, "plain">>       \* not a dictionary column: no counters
-     ELSE IF idx > L
-     THEN IF MutKeepWidening THEN <<L, total, FALSE, "ok">>
-          ELSE IF card * ThrDen < ThrNum * total /\ (MutNoResetGuard \/ ~resetPending[c])
-               THEN <<L, 0, TRUE, "reset">>
-               ELSE <<0, total, resetPending[c], "overflow">>
-     ELSE IF idx # lvl[c] THEN <<idx, total, FALSE, "upgrade">>
-     ELSE <<lvl[c], total, FALSE, "ok">>
+\* updateIndexType for one column (DictFn.tla): <<new lvl, new cum, new resetPending, kind>>
+Update(c) == UpdateFn(Caps, ThrNum, ThrDen, lvl[c], CardAfter(c), cum[c], n[c], resetPending[c], MutNoResetGuard, MutKeepWidening)
 
 \* RecordBuilderExt.NewRecord: build the record, let every dictionary column
 \* look at its cardinality; either the record is emitted or a schema update
